@@ -128,6 +128,8 @@ impl Check for Spending {
                         let (lim, _) = m.installed.unwrap_or((100, 1));
                         let spent: i128 = m.live().iter().map(|x| x.1).fold(0i128, |a, b| a.saturating_add(b));
                         let room = lim.saturating_sub(spent);
+                        // transfer amounts are never negative (a token refuses them; the property speaks of transfers)
+                        let room = room.max(0);
                         let amount = match rng.below(8) { 0 => 0, 1 => room, 2 => room.saturating_add(1), 3 => (room - 1).max(0), 4 => i128::MAX, _ => if room > 0 { rng.below((room.min(1_000_000) as u64).max(1)) as i128 / (1 + rng.below(4) as i128) } else { rng.below(5) as i128 } };
                         let ctx = match rng.below(20) { 0 => Ctx::OtherFn, 1 => Ctx::ShortArgs, 2 => Ctx::BadType, 3 => Ctx::Create, _ => Ctx::Transfer };
                         Step::Spend { amount, ctx, signers: if rng.chance(6) { 0 } else { 1 }, by_account: !rng.chance(8) }
@@ -268,7 +270,9 @@ impl Check for Spending {
                     } else if can != got {
                         return Err(violation("agree.can_enforce_eq_enforce", "enforce", i, format!("can_enforce={can} enforce ok={got} at {s:?} now={} model={m:?}", w.now())));
                     }
-                    if can != would {
+                    // a negative "amount" is not a transfer: what the policy answers for it is outside the property;
+                    // only agreement, authorization and no-trace are checked and the model adopts the real outcome
+                    if *amount >= 0 && can != would {
                         return Err(violation("spend.accept_iff_fits", "can_enforce", i, format!("can_enforce={can} model={would} at {s:?} now={} live={:?} installed={:?}", w.now(), m.live(), m.installed)));
                     }
                     if got {
